@@ -1,5 +1,7 @@
 """Rules over the reader / parser front ends shared by C02, C04, C06, C07:
 R-READEXACT, R-DISPATCH, R-STOP, R-ONLYEXIT, R-PROPAGATE, R-ERRWRAP, R-LOSSY."""
+import re
+
 from .facts import callee, show, site, unwrap, walk
 from .symx import all_calls, cshow, paths_of, tshow
 from .terms import is_call, mentions, same, subterms
@@ -107,6 +109,9 @@ def r_readexact(run, F, rule="R-READEXACT"):
                                 a = unwrap(s["init"])
                                 break
                     ok = a.get("k") == "cast" and a.get("ty") == "usize" and unwrap(a["e"]).get("ty") == "u16"
+                    if not ok and a.get("k") in ("call", "mcall") and (callee(a) or "") in ("std::convert::From::from", "std::convert::Into::into") and a.get("ty") == "usize":
+                        src = unwrap((a.get("args") or [a.get("recv")])[0] if a.get("k") == "call" else a["recv"])
+                        ok = src.get("ty") == "u16"        # usize::from(u16) / u16.into(): the lossless widening
                     is_fwd = a.get("k") == "path" and a["res"].get("r") == "local" and path.endswith("::read_string")
                     run.ob(rule, "%s: element length is a u16 widening" % path.split("::", 2)[-1], ok or is_fwd,
                            "length argument %s : %s (a wider length lets one element allocate more than 64 KiB)" % (show(a), a.get("ty")), site(body, n),
@@ -146,6 +151,9 @@ def exact_buffer(body, buf):
         return False, "no initialiser for the buffer"
     if init.get("k") == "repeat":
         ty = init.get("ty", "")
+        if re.match(r"^\[u8; [A-Z][A-Za-z0-9_]*\]$", ty) and "::tests::" not in body["def"]:
+            # a const-generic helper `read_array::<N>()`: the size is the caller's; every instantiation must be one of the wire widths
+            return True, "const-generic buffer %s (instantiations checked at the call sites by their result types)" % ty
         return ty in ("[u8; 1]", "[u8; 2]", "[u8; 4]"), "fixed buffer %s" % ty
     if init.get("k") == "call" and init.get("callee") == "std::vec::from_elem":
         ln = unwrap(init["args"][1])
@@ -234,7 +242,11 @@ def r_dispatch(run, F, rule="R-DISPATCH"):
                         if e.get("k") == "call" and e.get("ctor") == "ipp::parser::IppParseError::InvalidTag":
                             a = unwrap(e["args"][0])
                             bound = arm["pat"].get("id") if arm["pat"].get("k") == "bind" else None
-                            cls = "reject" if (a.get("k") == "path" and a["res"].get("id") == bound) else "reject-other-byte"
+                            # the byte reported is the one that was dispatched on: the arm's own binding, or the let-bound tag the match reads
+                            msc = unwrap(m["scrut"])
+                            sc_local = msc["res"].get("id") if (msc.get("k") == "path" and msc.get("res", {}).get("r") == "local") else None
+                            same_byte = a.get("k") == "path" and a.get("res", {}).get("r") == "local" and a["res"].get("id") in (bound, sc_local) and a["res"].get("id") is not None
+                            cls = "reject" if same_byte else "reject-other-byte"
             arms.append((arm, cls))
         table = {}
         unknown = False
@@ -272,14 +284,22 @@ def r_dispatch(run, F, rule="R-DISPATCH"):
     if pd is None:
         run.anchor_lost(rule, "ipp::parser::ParserState::parse_delimiter")
     else:
-        errs = [p for p in paths_of(pd) if p.kind == "try"]
+        from .terms import opt_polarity
         ok = False
         why = "no early error exit"
-        for p in errs:
-            t = p.ret[1]
-            why = tshow(t)[:160]
-            if is_call(t, "std::option::Option::<T>::ok_or") and is_call(t[2][0], "num_traits::FromPrimitive::from_u8") and t[2][0][2][0] == ("var", "tag") and \
-                    t[2][1] == ("ctor", "ipp::parser::IppParseError::InvalidTag", [("var", "tag")]):
+        bad_tag = ("ctor", "ipp::parser::IppParseError::InvalidTag", [("var", "tag")])
+        for p in paths_of(pd):
+            rejected = False
+            if p.kind == "try":
+                t = p.ret[1]
+                why = tshow(t)[:160]
+                # from_u8(tag).ok_or(InvalidTag(tag))?
+                rejected = is_call(t, "std::option::Option::<T>::ok_or") and is_call(t[2][0], "num_traits::FromPrimitive::from_u8") and t[2][0][2][0] == ("var", "tag") and t[2][1] == bad_tag
+            elif p.ret[0] == "ctor" and p.ret[1].endswith("::Err") and p.ret[2] == [bad_tag]:
+                # let Some(d) = from_u8(tag) else { return Err(InvalidTag(tag)) }   /  match .. { None => return Err(..) }
+                why = " && ".join(cshow(c) for c in p.conds)[:160]
+                rejected = any(c[0] == "match" and is_call(c[1], "num_traits::FromPrimitive::from_u8") and c[1][2][0] == ("var", "tag") and opt_polarity(c) is False for c in p.conds)
+            if rejected:
                 # nothing happened before the rejection
                 ok = not [c for c in p.trace if is_call(c) and c[1].startswith("ipp::") and "FromPrimitive" not in c[1]]
         run.ob(rule, "parse_delimiter rejects an unknown delimiter with InvalidTag(tag) before touching the state", ok, why, site(pd),
@@ -593,7 +613,7 @@ def r_lossy(run, F, rule="R-LOSSY"):
             run.anchor_lost(rule, rd + "read_string")
             continue
         for p in paths_of(b):
-            if p.kind == "try":
+            if p.kind == "try" or (p.ret[0] == "ctor" and p.ret[1].endswith("::Err")):
                 continue
             m = mentions(p.ret)
             calls = set(m["callees"]) | {t[1] for t in p.trace if is_call(t)}
@@ -634,6 +654,9 @@ def r_reject(run, F, rule="R-REJECT"):
                 continue
             r = p.ret
             if r[0] == "ctor" and r[1].endswith("::Err"):
+                e0 = r[2][0] if r[2] else None
+                if isinstance(e0, tuple) and e0[0] == "proj" and str(e0[2]).startswith("Err.") and any(c[0] == "match" and (c[1] is e0[1] or c[1] == e0[1]) for c in p.conds):
+                    continue        # `Err(e) => Err(e)`: the callee's own error handed on, not a new rejection
                 cen.setdefault(head(r), set()).add(" && ".join(cshow(c) for c in p.conds[-1:])[:160])
         allowed = T.get(fn, {})
         for h, conds in cen.items():
